@@ -1,5 +1,72 @@
 import Driver.Proto
-/-! C12 handler (not implemented yet). -/
+import ThunderModel.Sql.Limit
+/-! C12 handler: what a limited handle issues for an operation. -/
+open Lean TM.Sql.Limit
+
 namespace Driver.C12
-def handle : Handler := fun _ => throw "C12: no model yet"
+
+def decIV (j : Json) : Except String IV :=
+  match j with
+  | .null => pure none
+  | _ => do pure (some ⟨← nat j "ty", ← int j "v"⟩)
+
+def decKVs (j : Json) : Except String KVs := do
+  let a ← j.getArr?
+  a.toList.mapM fun kv => do
+    let p ← kv.getArr?
+    pure ((← (p[0]?.getD Json.null).getNat?), (← decIV (p[1]?.getD Json.null)))
+
+def decHandle (j : Json) : Except String Handle := do
+  let shard ← match j.getObjVal? "shard" with
+    | .ok .null => pure none
+    | .ok v => do pure (some (← decKVs v))
+    | .error _ => pure none
+  let dyn ← match j.getObjVal? "dyn" with
+    | .ok .null => pure none
+    | .ok v => do
+        let f ← match v.getObjVal? "filter" with
+          | .ok .null => pure none
+          | .ok x => do pure (some (← decKVs x))
+          | .error _ => pure none
+        pure (some { filter := f, continueOnError := ← bool v "continue" })
+    | .error _ => pure none
+  pure { shard := shard, dyn := dyn }
+
+def decOp (j : Json) : Except String Op := do
+  let k ← str j "op"
+  match k with
+  | "query" => pure (.query (← decKVs (← field j "filter")))
+  | "insertRow" => pure (.insertRow (← decKVs (← field j "row")) (← bool j "upsert"))
+  | "insertRows" => pure (.insertRows (← listOf decKVs (← field j "rows")) (← nat j "chunk") (← bool j "upsert"))
+  | "updateRow" => pure (.updateRow (← decKVs (← field j "pk")) (← decKVs (← field j "rest")))
+  | "deleteRow" => pure (.deleteRow (← decKVs (← field j "pk")))
+  | _ => throw s!"bad op {k}"
+
+def encIV : IV → Json
+  | none => Json.null
+  | some g => Json.mkObj [("ty", (g.ty : Nat)), ("v", (g.v : Int))]
+
+def encKVs (kvs : KVs) : Json := Json.arr (kvs.map fun (k, v) => Json.arr #[(k : Json), encIV v]).toArray
+
+def encStmt : Stmt → Json
+  | .select w => Json.mkObj [("k", "select"), ("where", encKVs w)]
+  | .selectBatch bs => Json.mkObj [("k", "selectBatch"), ("branches", Json.arr (bs.map encKVs).toArray)]
+  | .insert rows u => Json.mkObj [("k", "insert"), ("rows", Json.arr (rows.map encKVs).toArray), ("upsert", u)]
+  | .update set w => Json.mkObj [("k", "update"), ("set", encKVs set), ("where", encKVs w)]
+  | .delete w => Json.mkObj [("k", "delete"), ("where", encKVs w)]
+
+def handle : Handler := fun req => do
+  let op ← str req "op"
+  match op with
+  | "exec" =>
+    let h ← decHandle (← field req "handle")
+    let o ← decOp (← field req "call")
+    let (stmts, err) := exec h o
+    pure <| Json.mkObj [("stmts", Json.arr (stmts.map encStmt).toArray), ("error", err),
+      ("enforced", encKVs (enforced h)), ("carries", stmts.all (carries (enforced h)))]
+  | "batch" =>
+    let qs ← listOf (fun j => do pure ((← decHandle (← field j "handle")), (← decKVs (← field j "filter")))) (← field req "queries")
+    pure <| Json.mkObj [("stmt", match execBatch qs with | some s => encStmt s | none => Json.null)]
+  | _ => throw s!"C12: unknown op {op}"
+
 end Driver.C12
